@@ -28,6 +28,7 @@ RULE = (
     "Simulations.WeakForms and by the dedicated simulation. Non-trivial = form with an operator beyond the bare "
     "field / gradient, or >= 2 terms, or a position-dependent coefficient, or dof_n > 1 (simu: every solved case with "
     "free dofs); distinct = sha1 of the serialised case."
+    ' Round 9: weakforms_matrices (element type x rule of the field; reaction + diffusion with variable coefficients) and mass_along_normal (volume type x straight / bent mesh) are enumerated.'
 )
 ASSUMPTIONS = [
     "the group's tabulated N_pg, dN_e_pg, weighted Jacobians and Gauss coordinates are the trusted base (decided by C06/C07); "
